@@ -1,6 +1,7 @@
 package main
 
 import (
+	"bytes"
 	"fmt"
 	"unsafe"
 
@@ -177,6 +178,29 @@ func (c *sectorCtx) rangeCase(start, end uint64, ri int) {
 	}
 	b.Count("streaming_verifications", 1)
 	b.SetAdd("stream_chunkings_verified", cs.String())
+	// the verdict belongs to (data, proof, root), not to how often the caller asked: after a call with a wrong root
+	// the right root is still accepted, again and again
+	if end-start <= 4096 {
+		b.Guard("C16/complete/RangeProofVerifier/repeated-verify", wit, func() {
+			v := rhp2.NewRangeProofVerifier(start, end)
+			if _, err := v.ReadFrom(bytes.NewReader(data)); err != nil {
+				return
+			}
+			wrong := c.root
+			wrong[5] ^= 4
+			r1 := v.Verify(cloneHs(proof), wrong)
+			r2 := v.Verify(cloneHs(proof), c.root)
+			r3 := v.Verify(cloneHs(proof), c.root)
+			b.Eval(1)
+			b.Count("repeated_verify_sequences", 1)
+			if r1 {
+				b.Violate("C16/sound/RangeProofVerifier/accepts-root-bit-flipped", "first call with an altered root accepted", wit())
+			}
+			if !r2 || !r3 {
+				b.Violate("C16/complete/RangeProofVerifier/rejects-builder-proof-on-a-later-call", fmt.Sprintf("Verify(proof, wrong root)=%v, then Verify(proof, root)=%v, then again %v: the verifier no longer accepts the builder's proof with the correct root", r1, r2, r3), wit())
+			}
+		})
+	}
 	heavy := end-start > 4096
 	shape := []any{"sector-range", c.kind, idxClass(start, N), idxClass(end, N), cs.Mode, cpuPath()}
 	b.Distinct(shape...)
